@@ -16,8 +16,14 @@ import (
 // C03 — a remote write takes effect only with a binding and write permission.
 //
 // One case = one World: local server features S0 [1]/1 (DeviceClassification: user data writable, manufacturer
-// data read-only), S1 [1]/2 (Identification: list writable, session list not added) and S2 [2]/1
-// (DeviceClassification: manufacturer data writable, user data never added), three peers with identical numbering and three client features
+// data mostly read-only), S1 [1]/2 (Identification: list writable, session list mostly not added) and S2 [2]/1
+// (DeviceClassification: manufacturer data writable, user data mostly not added). "Writable" is read-write or WRITE-ONLY, the second
+// function is drawn from {read-only, added without any operation, write-only, read-write, not added}, and the application may add a missing
+// function (or register an added one again) in the middle of the history. Whether the written function "is announced as writable" is
+// never taken from these registrations nor from the library's Operations(): before every write a connected peer reads
+// nodeManagementDetailedDiscoveryData and the oracle uses the possibleOperations found in that reply. Three peers with identical numbering
+// - in 45 % of the worlds one of them never announces a device address (the element is optional), so all its addresses, its binding and
+// its subscriptions are device-less - and three client features
 // per server type ([1]/x, [1,1]/x and [2]/x), subscribers from every peer on every server feature. A history of
 // 15-30 operations {bind, unbind, disconnect, reconnect + re-announce, re-announcement without reconnect, remote entities
 // removed (one, two or three with ONE notify: a partial one naming them removed, or a full one that no longer lists them) / added,
@@ -31,8 +37,9 @@ func init() {
 	rig.Register(&rig.Check{
 		ID:    "C03",
 		Floor: 450,
-		Rule: "case = one World (3 local server features mixing writable, read-only and not-added functions; 3 identically numbered peers x 3 client features per type in the entities [1], [1,1] and [2]; subscribers on every server feature) and a seeded history of 15-30 operations " +
-			"{bind, bind by another peer, unbind, disconnect, reconnect + re-announce, re-announcement WITHOUT reconnect (the detailed discovery reply once more, or a partial notify lastStateChange=added for a known entity; same addresses, roles and types, in every second one new description texts; by a binding holder or a bystander; the shadow registry is unchanged by it), " +
+		Rule: "case = one World (3 local server features mixing functions registered read-write, WRITE-ONLY, read-only, without any operation and not added at all (seeded per world: the primary function of a feature is RW 70 % / WO 30 %, the second one RO / -- / WO / RW / not added); 'announced as writable' is decided by the possibleOperations in the reply to a nodeManagementDetailedDiscoveryData read that a connected peer sends immediately before every write, not by the registration and not by Operations().Write(); " +
+			"3 identically numbered peers x 3 client features per type in the entities [1], [1,1] and [2], in 45 % of the worlds ONE peer whose detailed discovery data (reply, re-announcements, partial and full notifies) never carries deviceInformation.description.deviceAddress (absent, or present without device): the stack knows no device address for it and all its addresses are device-less; subscribers on every server feature) and a seeded history of 15-30 operations " +
+			"{bind, bind by another peer, unbind, disconnect, reconnect + re-announce, AddFunctionType by the application in mid-history (a function that was never added gets RW / WO / RO / --, or an added one is registered again with the opposite flags) followed by writes of the holder and of a non-holder to that function, re-announcement WITHOUT reconnect (the detailed discovery reply once more, or a partial notify lastStateChange=added for a known entity; same addresses, roles and types, in every second one new description texts; by a binding holder or a bystander; the shadow registry is unchanged by it), " +
 			"remote entities removed by ONE discovery notify that takes away one, two or three of [1], [1,1], [2] at once - a partial notify listing them with lastStateChange=removed (every sixth one names an entity the stack never knew first) or a FULL (filter-less) notify of the remaining tree that no longer lists them (and may list an absent one again); " +
 			"the shadow model is the statement's: the writer's entity disappeared => its binding is gone for good => its writes are rejected and change nothing, also after the entity was announced again; the other bindings of that peer and of the others stay -, remote entity added by partial notify, write by the holder / a non-holder with the same numbers / the holder's other client feature / to a read-only function / to a function not added / " +
 			"with a 'function' element that names a WRITABLE function while the data element is that of a read-only or not-added function of the same feature type (by the holder and by non-holders) / with a 'function' element that merely repeats the data element's function / " +
@@ -48,7 +55,9 @@ func init() {
 			"a writer that is not an announced feature of a connected peer (removed entity, unknown feature, stale connection object after a disconnect) may or may not get a result; only 'no effect, no notify, no event' is asserted for it",
 			"'the written function' is the function of the cmd's data element (that is what a write changes); the optional 'function' element of the cmd does not widen the permission: a cmd that names a writable function there and carries the data of a function that is not writable is an unauthorised write",
 			"who writes is decided by the connection the datagram arrives on and the entity/feature numbers of its source address: a source address without device part names the sender's own feature; a source address that names ANOTHER device (the binding holder's) over the sender's connection does not make the holder the writer, such a write must have no effect (whether its sender counts as 'an announced feature' for the one-error-result clause is left open). A foreign device in the DESTINATION is C01's open finding D62 and not generated here",
-			"two connections that announce the SAME device address are outside the quantifier (several peers = several devices; SPINE device addresses are unique): not generated",
+			"two connections that announce the SAME device address are outside the quantifier (several peers = several devices; SPINE device addresses are unique): not generated. For the same reason at most ONE peer of a world is without device address (two of them would be indistinguishable by address)",
+			"'announced as writable' = the function is listed for the feature with a 'write' element in its possibleOperations in the detailed discovery data the local device sends at that moment (the read element is irrelevant: a write-only function is writable, a function listed with empty possibleOperations is not). If no peer is connected (writes over a stale connection) the feature's Information() - what that reply is assembled from - stands in; that the two agree is C07's subject",
+			"a peer may omit the optional deviceAddress of its detailed discovery data; it is then identified by its connection alone, its source addresses carry no device part, and everything the statement says about 'the writer's device' (disconnect, reconnect with the same SKI) applies to it unchanged",
 			"a re-announcement that leaves addresses, roles and types as they were (no reconnect, no removal; description texts may change) is neither a deletion of a binding nor a disappearance of the writer's device or entity: the holder stays authorised, everybody else stays unauthorised",
 		},
 		Parts: []rig.Part{
@@ -72,11 +81,19 @@ var c03Ents = []string{"[1]", "[1,1]", "[2]"}
 var c03EntAddr = map[string][]uint{"[1]": {1}, "[1,1]": {1, 1}, "[2]": {2}}
 
 type c03Srv struct {
-	name     string
-	f        api.FeatureLocalInterface
-	typ      model.FeatureTypeType
-	writable map[model.FunctionType]bool // added functions -> write flag
-	all      []model.FunctionType        // every function of the feature type (added or not)
+	name string
+	f    api.FeatureLocalInterface
+	typ  model.FeatureTypeType
+	// reg: what the harness registered with AddFunctionType: "RW", "RO", "WO" (write-only) or "--" (added with neither flag); absent = never
+	// added. It steers the GENERATOR only (which function a write class aims at). The oracle never reads it: whether a function "is announced
+	// as writable" is taken from the announcement itself (c03World.announcedOps).
+	reg     map[model.FunctionType]string
+	primary model.FunctionType   // the function the harness registered as writable when the world was built
+	all     []model.FunctionType // every function of the feature type (added or not)
+}
+
+func (s *c03Srv) regWritable(fn model.FunctionType) bool {
+	return s.reg[fn] == "RW" || s.reg[fn] == "WO"
 }
 
 type c03Holder struct {
@@ -93,6 +110,13 @@ type c03World struct {
 	binds  map[string]c03Holder
 	subs   map[string]bool // "peer|cli|srv"
 	val    int
+	// noAddr: the peer (or -1) whose detailed discovery data never carries the optional deviceInformation.description.deviceAddress:
+	// the stack knows no device address for it, all its addresses are device-less. noAddrForm: the element is absent / present but empty.
+	noAddr     int
+	noAddrForm string
+	// bareDisc: peers WITH a device address whose detailed discovery data names it once, in deviceInformation, and gives every
+	// entityAddress / featureAddress without device part (what most real devices send); the others repeat it in every address
+	bareDisc [3]bool
 }
 
 var c03Names = []string{"S0", "S1", "S2"}
@@ -103,23 +127,57 @@ var c03SnapFns = []model.FunctionType{model.FunctionTypeDeviceClassificationUser
 
 func c03Ent(f rkPeerFeat) string { return rkShort(f.Ent, 0)[:strings.Index(rkShort(f.Ent, 0), "/")] }
 
+// c03Flags: the (read, write) flags of a registration class.
+var c03Flags = map[string][2]bool{"RW": {true, true}, "RO": {true, false}, "WO": {false, true}, "--": {false, false}}
+
+func c03Pick(r interface{ Intn(int) int }, weighted ...any) string {
+	total := 0
+	for i := 1; i < len(weighted); i += 2 {
+		total += weighted[i].(int)
+	}
+	k := r.Intn(total)
+	for i := 0; i < len(weighted); i += 2 {
+		if k -= weighted[i+1].(int); k < 0 {
+			return weighted[i].(string)
+		}
+	}
+	panic("harness: c03Pick")
+}
+
 func newC03World(c *rig.Ctx) *c03World {
-	cw := &c03World{w: rig.NewWorld(c.Tag()), srv: map[string]*c03Srv{}, pf: map[string]rkPeerFeat{}, binds: map[string]c03Holder{}, subs: map[string]bool{}}
+	cw := &c03World{w: rig.NewWorld(c.Tag()), srv: map[string]*c03Srv{}, pf: map[string]rkPeerFeat{}, binds: map[string]c03Holder{}, subs: map[string]bool{}, noAddr: -1}
 	w := cw.w
+	r := c.Rand
 	e1 := w.AddEntity(model.EntityTypeTypeCEM, []uint{1}, 4*time.Second)
 	e2 := w.AddEntity(model.EntityTypeTypeCEM, []uint{2}, 4*time.Second)
 	ud, md := model.FunctionTypeDeviceClassificationUserData, model.FunctionTypeDeviceClassificationManufacturerData
 	il, sl := model.FunctionTypeIdentificationListData, model.FunctionTypeSessionIdentificationListData
-	s0 := e1.GetOrAddFeature(model.FeatureTypeTypeDeviceClassification, model.RoleTypeServer)
-	s0.AddFunctionType(ud, true, true)
-	s0.AddFunctionType(md, true, false)
-	cw.srv["S0"] = &c03Srv{name: "S0", f: s0, typ: s0.Type(), writable: map[model.FunctionType]bool{ud: true, md: false}, all: []model.FunctionType{ud, md}}
-	s1 := e1.GetOrAddFeature(model.FeatureTypeTypeIdentification, model.RoleTypeServer)
-	s1.AddFunctionType(il, true, true)
-	cw.srv["S1"] = &c03Srv{name: "S1", f: s1, typ: s1.Type(), writable: map[model.FunctionType]bool{il: true}, all: []model.FunctionType{il, sl}}
-	s2 := e2.GetOrAddFeature(model.FeatureTypeTypeDeviceClassification, model.RoleTypeServer)
-	s2.AddFunctionType(md, true, true) // the user data function of this feature is never added
-	cw.srv["S2"] = &c03Srv{name: "S2", f: s2, typ: s2.Type(), writable: map[model.FunctionType]bool{md: true}, all: []model.FunctionType{ud, md}}
+	// Every server feature has a primary function that is writable - read-write or WRITE-ONLY - and a second function of the same type
+	// that is read-only, added without any operation ("--"), write-only, read-write or (S1, S2) not added at all (it may be added later
+	// in the history). The classic mix (RW + RO, RW + not added, RW + not added) stays the most frequent one.
+	mk := func(name string, f api.FeatureLocalInterface, primary, second model.FunctionType, secondReg string) {
+		s := &c03Srv{name: name, f: f, typ: f.Type(), reg: map[model.FunctionType]string{}, primary: primary, all: []model.FunctionType{primary, second}}
+		if primary == md { // keep the order ud, md of the feature type
+			s.all = []model.FunctionType{second, primary}
+		}
+		s.reg[primary] = c03Pick(r, "RW", 7, "WO", 3)
+		if secondReg != "" {
+			s.reg[second] = secondReg
+		}
+		order := []model.FunctionType{primary, second}
+		if r.Intn(2) == 0 {
+			order = []model.FunctionType{second, primary}
+		}
+		for _, fn := range order {
+			if reg, ok := s.reg[fn]; ok {
+				f.AddFunctionType(fn, c03Flags[reg][0], c03Flags[reg][1])
+			}
+		}
+		cw.srv[name] = s
+	}
+	mk("S0", e1.GetOrAddFeature(model.FeatureTypeTypeDeviceClassification, model.RoleTypeServer), ud, md, c03Pick(r, "RO", 10, "--", 4, "WO", 3, "RW", 3))
+	mk("S1", e1.GetOrAddFeature(model.FeatureTypeTypeIdentification, model.RoleTypeServer), il, sl, c03Pick(r, "", 12, "RO", 3, "--", 2, "WO", 3))
+	mk("S2", e2.GetOrAddFeature(model.FeatureTypeTypeDeviceClassification, model.RoleTypeServer), md, ud, c03Pick(r, "", 12, "RO", 3, "--", 2, "WO", 3))
 	for _, f := range c03PeerFeats {
 		cw.pf[f.Name] = f
 	}
@@ -131,13 +189,125 @@ func newC03World(c *rig.Ctx) *c03World {
 			s.f.SetData(fn, rkPayload(fn, cw.val))
 		}
 	}
+	// in 45 % of the worlds one of the three peers never announces a device address
+	if r.Intn(20) < 9 {
+		cw.noAddr = r.Intn(3)
+		cw.noAddrForm = []string{"deviceAddress-element-absent", "deviceAddress-element-without-device"}[r.Intn(2)]
+	}
 	for i := 0; i < 3; i++ {
 		p := w.AddPeer(i)
 		p.Ctr = uint64(i+1) * 100000
+		if i == cw.noAddr {
+			p.Addr = "" // rig.FA / rig.EA / p.NM() leave the device part out for an empty address
+			c.Count("worlds_with_a_peer_without_device_address:"+cw.noAddrForm, 1)
+		} else if r.Intn(3) == 0 {
+			cw.bareDisc[i] = true
+			c.Count("peers_whose_discovery_data_carries_device-less_entity_and_feature_addresses", 1)
+		}
 		cw.connect(i, false)
 	}
 	w.Core.Take()
 	return cw
+}
+
+// disc builds detailed discovery data like rig.Peer.Discovery; for the peer without device address the optional
+// deviceInformation.description.deviceAddress is left out (or present without its - equally optional - device element).
+func (cw *c03World) disc(p *rig.Peer, feats []rig.FS, states map[string]model.NetworkManagementStateChangeType, removed [][]uint) *model.NodeManagementDetailedDiscoveryDataType {
+	d := p.Discovery(feats, states, removed)
+	if p.Addr == "" {
+		d.DeviceInformation.Description.DeviceAddress = nil
+		if cw.noAddrForm == "deviceAddress-element-without-device" {
+			d.DeviceInformation.Description.DeviceAddress = &model.DeviceAddressType{}
+		}
+	}
+	for i, q := range cw.w.Peers {
+		if q != p || !cw.bareDisc[i] {
+			continue
+		}
+		for _, ei := range d.EntityInformation {
+			if ei.Description != nil && ei.Description.EntityAddress != nil {
+				ei.Description.EntityAddress.Device = nil
+			}
+		}
+		for _, fi := range d.FeatureInformation {
+			if fi.Description != nil && fi.Description.FeatureAddress != nil {
+				fi.Description.FeatureAddress.Device = nil
+			}
+		}
+	}
+	return d
+}
+
+// announce sends the detailed discovery reply (what rig.Peer.Announce does, with disc).
+func (cw *c03World) announce(p *rig.Peer, feats []rig.FS) model.MsgCounterType {
+	return p.Send(model.CmdClassifierTypeReply, p.NM(), rig.LNM, false, util.Ptr(model.MsgCounterType(1)), model.CmdType{NodeManagementDetailedDiscoveryData: cw.disc(p, feats, nil, nil)})
+}
+
+// c03Ops is what the local device announces for one function of one feature: presence of the read / write element.
+type c03Ops struct{ listed, read, write bool }
+
+func (o c03Ops) String() string {
+	switch {
+	case !o.listed:
+		return "not-announced"
+	case o.read && o.write:
+		return "RW"
+	case o.read:
+		return "RO"
+	case o.write:
+		return "WO"
+	}
+	return "--"
+}
+
+func c03OpsOf(fis []model.NodeManagementDetailedDiscoveryFeatureInformationType, srv *model.FeatureAddressType, fn model.FunctionType) (ops c03Ops, featureListed bool) {
+	for _, fi := range fis {
+		d := fi.Description
+		if d == nil || d.FeatureAddress == nil || d.FeatureAddress.Feature == nil || srv.Feature == nil || *d.FeatureAddress.Feature != *srv.Feature || rkEnt(d.FeatureAddress.Entity) != rkEnt(srv.Entity) {
+			continue
+		}
+		featureListed = true
+		for _, sf := range d.SupportedFunction {
+			if sf.Function == nil || *sf.Function != fn {
+				continue
+			}
+			ops.listed = true
+			if po := sf.PossibleOperations; po != nil {
+				ops.read = ops.read || po.Read != nil
+				ops.write = ops.write || po.Write != nil
+			}
+		}
+	}
+	return
+}
+
+// announcedOps: what the local device ANNOUNCES for function fn of server feature s at this moment. Source: the reply to a
+// nodeManagementDetailedDiscoveryData read that a connected peer (the writer's, if it is connected) sends right now - the very
+// datagram a peer learns the possible operations from. Only if no peer is connected (or the read stays unanswered, which is
+// counted) the feature's Information() - what such a reply is assembled from - is used instead. The registration flags the
+// harness passed to AddFunctionType and the library's Operations().Write() - what the gate looks at - are deliberately not consulted.
+func (cw *c03World) announcedOps(c *rig.Ctx, prefer int, s *c03Srv, fn model.FunctionType) (c03Ops, string) {
+	w := cw.w
+	for k := 0; k < 3; k++ {
+		pi := (prefer + k) % 3
+		if !cw.conn[pi] {
+			continue
+		}
+		p := w.Peers[pi]
+		p.Tap.Take()
+		mc := p.Send(model.CmdClassifierTypeRead, p.NM(), rig.LNM, false, nil, model.CmdType{NodeManagementDetailedDiscoveryData: &model.NodeManagementDetailedDiscoveryDataType{}})
+		for _, d := range rig.Classify(p.Tap.Take(), mc).All {
+			if rkClassifier(d) != model.CmdClassifierTypeReply || len(d.Payload.Cmd) != 1 || d.Payload.Cmd[0].NodeManagementDetailedDiscoveryData == nil {
+				continue
+			}
+			if ops, listed := c03OpsOf(d.Payload.Cmd[0].NodeManagementDetailedDiscoveryData.FeatureInformation, s.f.Address(), fn); listed {
+				return ops, "discovery-reply"
+			}
+		}
+		c.Count("announcement:discovery_read_without_usable_reply", 1)
+	}
+	ops, _ := c03OpsOf([]model.NodeManagementDetailedDiscoveryFeatureInformationType{*s.f.Information()}, s.f.Address(), fn)
+	return ops, "feature-information"
 }
 
 // connect announces the full tree of peer i and subscribes it to every server feature (peer 2 twice on S0 and S1).
@@ -163,7 +333,7 @@ func (cw *c03World) connect(i int, reconnect bool) {
 			}
 		}
 	}
-	p.Announce(rkAnnounceList(c03PeerFeats))
+	cw.announce(p, rkAnnounceList(c03PeerFeats))
 	cw.conn[i] = true
 	cw.hasEnt[i] = map[string]bool{"[1]": true, "[1,1]": true, "[2]": true}
 	pairs := [][2]string{{"x", "S0"}, {"z", "S1"}, {"x", "S2"}}
@@ -224,7 +394,7 @@ func (cw *c03World) removeEntityRefs(peer int, ent string) {
 // (S1, S2), or a function foreign to the type where every function of the type is added (S0).
 func notAddedFn(s *c03Srv) model.FunctionType {
 	for _, fn := range s.all {
-		if _, added := s.writable[fn]; !added {
+		if _, added := s.reg[fn]; !added {
 			return fn
 		}
 	}
@@ -265,6 +435,8 @@ func c03Case(c *rig.Ctx) {
 	fail := func(sig, format string, a ...any) {
 		c.Violate(sig, "%s\n history:\n  %s", fmt.Sprintf(format, a...), strings.Join(hist, "\n  "))
 	}
+	shape = append(shape, fmt.Sprintf("world:no-device-address=%d/%s:device-less-discovery-addresses=%v", cw.noAddr, cw.noAddrForm, cw.bareDisc))
+	log("world: peer without device address: %d (%s); peers whose discovery data carries device-less entity/feature addresses: %v; registrations S0 %v, S1 %v, S2 %v", cw.noAddr, cw.noAddrForm, cw.bareDisc, cw.srv["S0"].reg, cw.srv["S1"].reg, cw.srv["S2"].reg)
 	accepted, refused, afterRevocation, teardowns := 0, 0, 0, 0
 	var queue []c03Write                      // writes forced by a preceding revocation
 	var forced []c03Forced                    // operations forced by a preceding re-announcement
@@ -287,13 +459,18 @@ func c03Case(c *rig.Ctx) {
 		}
 		return hs
 	}
+	// writableFn: a function of s the harness registered with the write flag - mostly the primary one (read-write or write-only),
+	// now and then the second one if that is writable too. (Generator only; the verdict comes from the announcement.)
 	writableFn := func(s *c03Srv) model.FunctionType {
 		for _, fn := range s.all {
-			if s.writable[fn] {
+			if fn != s.primary && s.regWritable(fn) && r.Intn(3) == 0 {
 				return fn
 			}
 		}
-		panic("harness: no writable function")
+		if !s.regWritable(s.primary) {
+			panic("harness: no writable function")
+		}
+		return s.primary
 	}
 	// after a revocation by peer pi: the former holder tries again, and a holder that must not be affected writes too
 	followUps := func(pi int, lost []string, what string, lostCli map[string]string) {
@@ -318,7 +495,7 @@ func c03Case(c *rig.Ctx) {
 				feats = append(feats, f.FS())
 			}
 		}
-		p.NotifyDiscovery(true, p.Discovery(feats, map[string]model.NetworkManagementStateChangeType{fmt.Sprint(ent): model.NetworkManagementStateChangeTypeAdded}, nil))
+		p.NotifyDiscovery(true, cw.disc(p, feats, map[string]model.NetworkManagementStateChangeType{fmt.Sprint(ent): model.NetworkManagementStateChangeTypeAdded}, nil))
 		cw.hasEnt[pi][ek] = true
 		c.Count("op:entity-added", 1)
 	}
@@ -361,7 +538,7 @@ func c03Case(c *rig.Ctx) {
 				rem = append(rem, c03EntAddr[e])
 			}
 			log("#%d peer%d announces %v removed (one partial notify, unknown entity [7] first: %v); bindings that go with them: %v", step, pi, gone, unknownFirst, lostCli)
-			p.NotifyDiscovery(true, p.Discovery(nil, nil, rem))
+			p.NotifyDiscovery(true, cw.disc(p, nil, nil, rem))
 		} else {
 			feats := []rig.FS{rig.NMFS}
 			var listed []string
@@ -382,7 +559,7 @@ func c03Case(c *rig.Ctx) {
 				}
 			}
 			log("#%d peer%d sends a FULL detailed discovery notify listing [0] and %v: %v are gone (device's entity list before: last of them %s), %v are new; bindings that go with them: %v", step, pi, listed, gone, lastGone, added, lostCli)
-			p.NotifyDiscovery(false, p.Discovery(feats, nil, nil))
+			p.NotifyDiscovery(false, cw.disc(p, feats, nil, nil))
 		}
 		for _, e := range gone {
 			cw.hasEnt[pi][e] = false
@@ -444,8 +621,18 @@ func c03Case(c *rig.Ctx) {
 		}
 		announced := cw.announced(wr.peer, wr.cli)
 		h, bound := cw.binds[wr.srv]
-		writeFlag, added := s.writable[wr.fn]
-		authorised := bound && h.peer == wr.peer && h.cli == wr.cli && added && writeFlag && announced
+		// "the written function is announced as writable on that feature": read from the announcement, at this very moment
+		// (the discovery read is spent where the announcement decides the verdict: on writes of the binding holder; for everybody
+		// else the write is unauthorised whatever is announced, and the announcement is only recorded as evidence)
+		byHolder := bound && h.peer == wr.peer && h.cli == wr.cli && announced
+		var ops c03Ops
+		opsFrom := "feature-information(evidence-only)"
+		if byHolder {
+			ops, opsFrom = cw.announcedOps(c, wr.peer, s, wr.fn)
+		} else {
+			ops, _ = c03OpsOf([]model.NodeManagementDetailedDiscoveryFeatureInformationType{*s.f.Information()}, s.f.Address(), wr.fn)
+		}
+		authorised := byHolder && ops.write
 		// address forms. Source: the writer's own device, no device part, or (unauthorised writers only) the device of
 		// somebody else - preferably of the peer that holds the binding with the same numbers. Destination: the local
 		// device or no device part. Who writes is decided by the connection and the entity/feature numbers; naming the
@@ -456,12 +643,21 @@ func c03Case(c *rig.Ctx) {
 		if wr.cli != "unk" {
 			switch k := r.Intn(20); {
 			case k < 4:
-				src, form = rkStripDevice(src), "source-device-omitted"
+				if p.Addr != "" { // (the peer without device address never names a device of its own)
+					src, form = rkStripDevice(src), "source-device-omitted"
+					if bound && h.peer == cw.noAddr && h.peer != wr.peer && h.cli == wr.cli {
+						// on the wire this source address EQUALS the client address of the binding, which a peer without device address holds
+						form = "source-device-omitted=the-address-of-the-device-less-holder"
+					}
+				}
 			case k < 8 && !authorised:
 				dev := []string{rig.LocalAddr, "nowhere", w.Peers[(wr.peer+1)%3].Addr, w.Peers[(wr.peer+2)%3].Addr}[r.Intn(4)]
 				form = "source-device-foreign"
-				if bound && h.peer != wr.peer && r.Intn(4) > 0 {
+				if bound && h.peer != wr.peer && r.Intn(4) > 0 && w.Peers[h.peer].Addr != "" {
 					dev, form = w.Peers[h.peer].Addr, "source-device-of-the-holder"
+				}
+				if dev == "" { // the peer without device address has no device name anybody could borrow
+					dev = "nowhere"
 				}
 				c2 := *src
 				c2.Device = util.Ptr(model.AddressDeviceType(dev))
@@ -561,16 +757,17 @@ func c03Case(c *rig.Ctx) {
 			c.Count("function_element:equal-to-the-data-element's-function", 1)
 		case wr.fnElem == "mismatch":
 			// the data element decides which function is written; the function element names another, writable one
-			cmd.Function = util.Ptr(writableFn(s))
-			mode = "full+function-element=" + string(writableFn(s))
+			named := writableFn(s)
+			cmd.Function = util.Ptr(named)
+			mode = "full+function-element=" + string(named)
 			if r.Intn(4) == 0 {
 				cmd.Filter = []model.FilterType{*model.NewFilterTypePartial()}
 				mode += "+partial-filter"
 			}
 			c.Count("function_element:writable-function-named-while-data-element-is-of-another-function", 1)
 		}
-		log("#%d write(%s,%s,ack=%v) peer%d %s -> %s.%s from %s to "+rkKey(dst)+" class=%s%s authorised=%v (holder %v, announced=%v, write flag=%v, added=%v)", step, mode, rkToken(v), ack, wr.peer, wr.cli, wr.srv, wr.fn, rkKey(src),
-			wr.class, map[bool]string{true: " after " + wr.after, false: ""}[wr.after != ""], authorised, cw.binds[wr.srv], announced, writeFlag, added)
+		log("#%d write(%s,%s,ack=%v) peer%d %s -> %s.%s from %s to "+rkKey(dst)+" class=%s%s authorised=%v (holder %v, writer announced=%v; function announced as %s [%s], registered as %q)", step, mode, rkToken(v), ack, wr.peer, wr.cli, wr.srv, wr.fn, rkKey(src),
+			wr.class, map[bool]string{true: " after " + wr.after, false: ""}[wr.after != ""], authorised, cw.binds[wr.srv], announced, ops, opsFrom, s.reg[wr.fn])
 		before := cw.snapshot()
 		takeAll()
 		w.Core.Take()
@@ -578,6 +775,13 @@ func c03Case(c *rig.Ctx) {
 		after := cw.snapshot()
 		outs := takeAll()
 		evs := w.Core.Take()
+		if wr.fnElem == "mismatch" && authorised {
+			// The generator aims these cmds at functions it registered WITHOUT the write flag; if the announcement nevertheless lists the
+			// data element's function as writable (the library re-interpreted a registration), this is a contradictory cmd of an authorised
+			// writer: the statement allows the change and does not demand it. Not judged (never seen on the unchanged tree).
+			c.Count("not-judged:function-element-mismatch-while-the-data-element's-function-is-announced-writable", 1)
+			return
+		}
 		c.Events(1)
 		what := "write/" + wr.class
 		if form != "" {
@@ -713,7 +917,19 @@ func c03Case(c *rig.Ctx) {
 			c.Count("writes_after:"+wr.after, 1)
 		}
 		c.Count("write_class:"+wr.class, 1)
-		shape = append(shape, fmt.Sprintf("w:%s:%s:%s:%s:%s:%v", wr.class, wr.cli, wr.srv, wr.fn, strings.SplitN(mode, "=", 2)[0]+":"+form, authorised))
+		// the announcement dimension: what was announced for the written function, who held the binding, what happened
+		verdict := map[bool]string{true: "accepted", false: "refused"}[authorised]
+		c.Count(fmt.Sprintf("written_function_announced_as:%s:by_the_binding_holder=%v:%s", ops, byHolder, verdict), 1)
+		c.Count("announcement_taken_from:"+opsFrom, 1)
+		if wr.peer == cw.noAddr {
+			c.Count("writes_by_the_peer_without_device_address:"+verdict, 1)
+			if wr.after != "" {
+				c.Count("writes_by_the_peer_without_device_address:after:"+wr.after+":"+verdict, 1)
+			}
+		} else if bound && h.peer == cw.noAddr {
+			c.Count("writes_by_others_while_the_peer_without_device_address_holds_the_binding:"+verdict, 1)
+		}
+		shape = append(shape, fmt.Sprintf("w:%s:%s:%s:%s:%s:%s:%v", wr.class, wr.cli, wr.srv, wr.fn, ops, strings.SplitN(mode, "=", 2)[0]+":"+form, authorised))
 	}
 
 	nOps := 15 + r.Intn(16)
@@ -799,6 +1015,53 @@ func c03Case(c *rig.Ctx) {
 			w.Core.Take()
 			dropEntities(step, pi, present[:n], "full", forcedEnt != "")
 
+		case roll >= 59 && roll < 62: // ---------------- the application adds a function to a server feature while peers are connected
+			// "at the moment it is processed": what is announced for a function can change during a history. A function of the
+			// feature's type that was never added is added now (read-write, write-only, read-only or without operations); now and
+			// then a function that IS added is registered once more with the opposite flags (whatever the library makes of that -
+			// the oracle reads the announcement before every write anyway). Writes of the holder and of a non-holder follow.
+			var cands []*c03Srv
+			for _, n := range c03Names {
+				if fn := notAddedFn(cw.srv[n]); fn == cw.srv[n].all[0] || fn == cw.srv[n].all[1] {
+					cands = append(cands, cw.srv[n])
+				}
+			}
+			var s *c03Srv
+			var fn model.FunctionType
+			reg, how := "", "function-added"
+			if len(cands) > 0 && r.Intn(5) > 0 {
+				s = cands[r.Intn(len(cands))]
+				fn, reg = notAddedFn(s), c03Pick(r, "RW", 4, "WO", 3, "RO", 2, "--", 1)
+				s.f.AddFunctionType(fn, c03Flags[reg][0], c03Flags[reg][1])
+				s.reg[fn] = reg
+			} else {
+				s = cw.srv[c03Names[r.Intn(3)]]
+				fn = s.all[r.Intn(2)]
+				if _, added := s.reg[fn]; !added {
+					fn = s.primary
+				}
+				how = "function-registered-again-with-the-opposite-flags"
+				reg = s.reg[fn]
+				s.f.AddFunctionType(fn, !c03Flags[reg][0], !c03Flags[reg][1])
+			}
+			log("#%d the application calls AddFunctionType(%s) on %s: %s (harness registration now %q)", step, fn, s.name, how, s.reg[fn])
+			for qi, o := range takeAll() {
+				if ns, _ := rkNotifies(o); len(ns) > 0 {
+					fail("function-added/unexpected-notify", "peer %d received %s", qi, rig.JS(ns[0].Raw))
+				}
+			}
+			w.Core.Take()
+			c.Count("op:"+how+":"+reg, 1)
+			shape = append(shape, fmt.Sprintf("addfn:%s:%s:%s:%s", how, s.name, fn, reg))
+			if h, bound := cw.binds[s.name]; bound {
+				queue = append(queue, c03Write{peer: h.peer, cli: h.cli, srv: s.name, fn: fn, class: "holder+" + how})
+				if r.Intn(2) == 0 {
+					queue = append(queue, c03Write{peer: (h.peer + 1 + r.Intn(2)) % 3, cli: h.cli, srv: s.name, fn: fn, class: "same-numbers-from-other-peer+" + how})
+				}
+			} else {
+				queue = append(queue, c03Write{peer: pi, cli: cw.clientsFor(s.name)[r.Intn(3)], srv: s.name, fn: fn, class: "no-binding-on-feature+" + how})
+			}
+
 		case roll < 66: // ---------------- write
 			srv := hs[r.Intn(len(hs))]
 			if r.Intn(6) == 0 {
@@ -808,13 +1071,22 @@ func c03Case(c *rig.Ctx) {
 			h, bound := cw.binds[srv]
 			wr := c03Write{srv: srv, fn: writableFn(s)}
 			k := r.Intn(100)
-			// notWritable: a function of the feature's type that a remote write must never change: announced read-only (S0),
-			// or never added (S1, S2)
-			notWritable := func() (model.FunctionType, string) {
+			// addedNotWritable: a function the harness added WITHOUT the write flag: read-only, or with no operation at all ("--")
+			addedNotWritable := func() (model.FunctionType, string) {
 				for _, fn := range s.all {
-					if wf, added := s.writable[fn]; added && !wf {
+					switch s.reg[fn] {
+					case "RO":
 						return fn, "read-only"
+					case "--":
+						return fn, "operation-less"
 					}
+				}
+				return "", ""
+			}
+			// notWritable: a function that a remote write must never change: added read-only or without operations, or never added
+			notWritable := func() (model.FunctionType, string) {
+				if fn, how := addedNotWritable(); fn != "" {
+					return fn, how
 				}
 				return notAddedFn(s), "not-added"
 			}
@@ -841,13 +1113,10 @@ func c03Case(c *rig.Ctx) {
 					}
 				}
 			case k < 74:
-				wr.class, wr.peer, wr.cli = "read-only-function", h.peer, h.cli
-				for _, fn := range s.all {
-					if wf, added := s.writable[fn]; added && !wf {
-						wr.fn = fn
-					}
-				}
-				if s.writable[wr.fn] {
+				wr.peer, wr.cli = h.peer, h.cli
+				if fn, how := addedNotWritable(); fn != "" {
+					wr.class, wr.fn = how+"-function", fn
+				} else {
 					wr.class, wr.fn = "function-not-added", notAddedFn(s)
 				}
 			case k < 83:
@@ -871,7 +1140,7 @@ func c03Case(c *rig.Ctx) {
 				wr.class, wr.peer, wr.cli = "unknown-writer-feature", h.peer, "unk"
 			}
 			// writes that fail BOTH conditions (no binding and no write permission) must still get exactly one error result
-			if bound && (strings.HasPrefix(wr.class, "read-only-function") || strings.HasPrefix(wr.class, "function-not-added") || wr.class == "function-of-foreign-type" || wr.fnElem == "mismatch") && r.Intn(3) == 0 {
+			if bound && (strings.HasPrefix(wr.class, "read-only-function") || strings.HasPrefix(wr.class, "operation-less-function") || strings.HasPrefix(wr.class, "function-not-added") || wr.class == "function-of-foreign-type" || wr.fnElem == "mismatch") && r.Intn(3) == 0 {
 				wr.peer = (h.peer + 1 + r.Intn(2)) % 3
 				wr.class += "+non-holder"
 			}
@@ -880,11 +1149,9 @@ func c03Case(c *rig.Ctx) {
 					wr.fn = fn
 					wr.class += "+function-not-added"
 				}
-				for _, fn := range s.all {
-					if wf, added := s.writable[fn]; added && !wf && r.Intn(2) == 0 {
-						wr.fn = fn
-						wr.class = "no-binding-on-feature+read-only-function"
-					}
+				if fn, how := addedNotWritable(); fn != "" && r.Intn(2) == 0 {
+					wr.fn = fn
+					wr.class = "no-binding-on-feature+" + how + "-function"
 				}
 				if r.Intn(3) == 0 {
 					wr.fnElem = "mismatch"
@@ -953,7 +1220,7 @@ func c03Case(c *rig.Ctx) {
 					}
 				}
 				log("#%d peer%d sends its detailed discovery reply again (entities %v, same addresses, roles and types; descriptions %q); it holds %v", step, pi, present, desc, mine)
-				p.Announce(feats)
+				cw.announce(p, feats)
 			} else {
 				ent := c03EntAddr[ek]
 				var feats []rig.FS
@@ -963,7 +1230,7 @@ func c03Case(c *rig.Ctx) {
 					}
 				}
 				log("#%d peer%d announces the known entity %s as added again (same addresses, roles and types; descriptions %q); it holds %v", step, pi, ek, desc, mine)
-				p.NotifyDiscovery(true, p.Discovery(feats, map[string]model.NetworkManagementStateChangeType{fmt.Sprint(ent): model.NetworkManagementStateChangeTypeAdded}, nil))
+				p.NotifyDiscovery(true, cw.disc(p, feats, map[string]model.NetworkManagementStateChangeType{fmt.Sprint(ent): model.NetworkManagementStateChangeTypeAdded}, nil))
 			}
 			for qi, o := range takeAll() {
 				if ns, _ := rkNotifies(o); len(ns) > 0 {
